@@ -7,6 +7,7 @@
 From SF Require Import Base.Prelude Gen.Generated Unsized.Types Unsized.Parse Unsized.Machine Unsized.Ops.
 From SF Require Import Unsized.Proofs.EncodeParse Unsized.Proofs.Mem Unsized.Proofs.Notify Unsized.Proofs.Flat Unsized.Proofs.Layout
   Unsized.Proofs.Table Unsized.Proofs.Path Unsized.Proofs.Context Unsized.Proofs.Focus Unsized.Proofs.Pos Unsized.Proofs.NotifyInside.
+From SF Require Import Unsized.Proofs.EnumFacts.
 
 Arguments Z.add : simpl never.
 Arguments Z.sub : simpl never.
@@ -60,7 +61,18 @@ Proof.
     rewrite Lay_struct in HL. rewrite notify_struct.
     destruct (notify_fields_own ts IH vs0 ps a a c m Hpl Hwf HL) as (ps' & Hps); [lia|].
     rewrite Hps. cbn [obind]. eexists. reflexivity.
-  - cbn in Hpl. discriminate.
+  - destruct xv as [| | | |d pv]; try (cbn in Hwf; discriminate).
+    destruct node as [| | | | |st d' q]; try (cbn [Lay] in HL; contradiction).
+    apply Lay_enum in HL. destruct HL as (-> & -> & vt' & Hf' & HLq).
+    destruct (wf_enum_inv _ _ _ _ Hwf) as (Hd & vt & Hf & Hp). rewrite Hf in Hf'. injection Hf' as <-.
+    pose proof (plain_enum_find _ _ _ _ Hpl Hf) as Hplv.
+    enum_ih IH Hf IHv.
+    rewrite notify_enum, Hf.
+    destruct (Z.eq_dec (Z.of_nat rw) 0) as [Hz|Hz].
+    + rewrite Hz, Z.add_0_r in HLq. destruct (IHv pv a q c m Hplv Hp HLq) as (q' & Hq).
+      rewrite Hq. cbn [obind]. eexists. reflexivity.
+    + rewrite (notify_shift vt q a c m (Lay_after vt pv _ q a Hplv Hp HLq ltac:(lia))). cbn [obind].
+      eexists. reflexivity.
 Qed.
 
 Lemma notify_at_own_start : forall X xv a node c m, plain X = true -> wf X xv = true -> Lay X xv a node ->
@@ -84,7 +96,7 @@ Proof.
     rewrite plain_struct_cons in Hpl. apply andb_true_iff in Hpl as [Hp1' Hp2'].
     rewrite tpos_struct_cons in Hp. apply orb_false_iff in Hp as [Hp1 Hp2].
     rewrite encode_struct_cons, (Ht v Hp1' Hok1 Hp1), (IHts vs0 Hp2' Hok2 Hp2). reflexivity.
-  - cbn in Hpl. discriminate.
+  - cbn [ty_ok tpos] in *. apply andb_true_iff in Hok as [Hok _]. apply andb_true_iff in Hok as [Hok _]. congruence.
 Qed.
 
 (* ... hence a type in non-tail position through which a path reaches a sub-value that does occupy bytes always
@@ -292,6 +304,31 @@ Proof.
     unfold elem_addr. rewrite Hl', (usizes_set_nth _ _ _ _ _ Hkv), firstn_bump. reflexivity.
 Qed.
 
+(* the variant step *)
+Lemma nia_SV r : nia_stmt r -> nia_stmt (SV :: r).
+Proof.
+  intros IH t last v p pre post Hpl Hok Hwf Hr0 HL Hlt.
+  pose proof Hr0 as Hr.
+  apply resolve_SV_inv in Hr as (rw & vars & d0 & pv & vt & -> & -> & Hf & Hr).
+  destruct p as [| | | | |st d' q]; try (cbn [LayP] in HL; contradiction).
+  cbn [LayP] in HL. destruct HL as (-> & -> & vt' & Hf' & HLq). rewrite Hf in Hf'. injection Hf' as <-.
+  destruct (wf_enum_inv _ _ _ _ Hwf) as (_ & vt' & Hf' & Hwi). rewrite Hf in Hf'. injection Hf' as <-.
+  pose proof (plain_enum_find _ _ _ _ Hpl Hf) as Hplv.
+  pose proof (ty_ok_enum_variant _ _ _ _ _ Hok Hf) as Hokv.
+  rewrite (zlen_encode_enum _ _ _ _ _ Hf) in Hlt.
+  pose proof (zlen_nonneg (fst (hctx vt pv r 0))) as HnP.
+  destruct (IH vt last pv q (pre ++ le_bytes rw d0) post Hplv Hokv Hwi Hr) as (q' & Hnq & HLq').
+  { rewrite zlen_app, zlen_le_bytes. exact HLq. }
+  { lia. }
+  unfold addr_of in Hnq. rewrite zlen_app, zlen_le_bytes in Hnq, HLq'. rewrite <- ?app_assoc in Hnq.
+  exists (PEnum (zlen pre) d0 q'). split.
+  - unfold addr_of. rewrite !(hctx_SV _ _ _ _ _ _ Hf). cbn [fst snd]. rewrite zlen_app, zlen_le_bytes, Z.add_assoc.
+    rewrite <- ?app_assoc. rewrite notify_enum, Hf, Hnq. cbn [obind].
+    destruct (_ <? zlen pre) eqn:E; [zb; lia|reflexivity].
+  - rewrite (plug_SV _ _ _ _ _ _ _ Hf). cbn [LayP]. split; [reflexivity|]. split; [reflexivity|].
+    exists vt. split; [exact Hf|exact HLq'].
+Qed.
+
 End InsideAny.
 
 Theorem notify_inside_any : forall pi t last v p X xv xv' c h pre post,
@@ -311,10 +348,11 @@ Proof.
   intros pi t last v p X xv xv' c h pre post Hpl Hok Hwf Hr Hpos Hown HL Hh Hx' Hnn Hlt.
   revert t last v p pre post Hpl Hok Hwf Hr HL Hlt.
   change (nia_stmt X xv xv' c h pi).
-  induction pi as [|[i|i] r IH].
+  induction pi as [|[i|i|] r IH].
   - apply nia_nil; assumption.
   - apply nia_SF; assumption.
   - apply nia_SE; assumption.
+  - apply nia_SV; assumption.
 Qed.
 
 (* the instance for sub-values of enum-free values: the hypothesis about the own node always holds *)
